@@ -121,7 +121,7 @@ def interesting(q, text, feat_delta):
 
 def plan(tier, seed, nproc, scale):
     shards = nproc if tier == "quick" else nproc * 4
-    n = int((24000 if tier == "quick" else 800000) * scale)
+    n = int((24000 if tier == "quick" else 400000) * scale)
     return [{"kind": "random", "seed": "%d/%d" % (seed, i), "n": n // shards} for i in range(shards)]
 
 
